@@ -2,6 +2,7 @@ package main
 
 import (
 	"fmt"
+	"golang.org/x/tools/go/ssa"
 	"os"
 	"time"
 )
@@ -90,6 +91,27 @@ func init() {
 		e := GetEF(c)
 		for k, v := range e.translations {
 			fmt.Println(k, len(v))
+		}
+	}
+}
+
+func init() {
+	debugCmds["panics"] = func(c *Ctx) {
+		for name, cone := range map[string]map[*ssa.Function]bool{"reader": readerCone(c), "writer": writerCone(c)} {
+			for _, fn := range sortedFuncs(moduleOnly(c, cone)) {
+				for _, b := range fn.Blocks {
+					for _, ins := range b.Instrs {
+						switch x := ins.(type) {
+						case *ssa.Panic:
+							fmt.Println(name, "PANIC", FnName(fn), c.InstrPos(ins), x.X)
+						case *ssa.TypeAssert:
+							if !x.CommaOk {
+								fmt.Println(name, "ASSERT", FnName(fn), c.InstrPos(ins), x.AssertedType)
+							}
+						}
+					}
+				}
+			}
 		}
 	}
 }
